@@ -67,5 +67,7 @@ try:
         sh("cp -r %s/. /verif/evidence/" % bak); shutil.rmtree(bak, ignore_errors=True)
 finally:
     shutil.rmtree(clean, ignore_errors=True); shutil.rmtree(mut, ignore_errors=True)
-    sh("rm -rf /tmp/verif_harness_* /tmp/verif_work_*")
+    import hashlib
+    _h = hashlib.sha1(mut.encode()).hexdigest()[:10]
+    sh("rm -rf /tmp/verif_harness_%s /tmp/verif_work_%s" % (_h, _h))
 print(json.dumps(res, indent=1))
